@@ -21,6 +21,7 @@ func init() {
 	register("C19", func(c *core.Ctx, tier string) {
 		c19Protocol(c)
 		c19Cancelled(c, "C19.5")
+		upgradeAttemptConcludedOnce(c, "C19.6")
 		c19LoopStop(c)
 		c19Pairing(c)
 		c19WhoClears(c)
